@@ -172,7 +172,13 @@ Definition establish (retries : nat) (access : N) (draws : stream) (assoc_ok dp_
 (* histories over several associations sharing one generator *)
 Inductive ev :=
 | EvEst (k : nat) (assoc_ok dp_ok : bool) (ps : list cpdr)
-| EvDel (k : nat) (seid : N).          (* Session Deletion Request for local SEID [seid] *)
+| EvDel (k : nat) (seid : N)           (* Session Deletion Request for local SEID [seid] *)
+| EvMod (k : nat) (seid : N) (ch : bool) (teid : N).
+  (* Session Modification Request that leaves on session [seid] a new PDR with UPAllocateFteid = ch
+     and tunnelTEID = teid.  parseFTEID sets the flag for a CHOOSE F-TEID and the TEID for any other
+     F-TEID of the PDI; the modification handler allocates nothing, so the generator is untouched,
+     but the session will release [teid] when it ends (FreeID(0) is a no-op: a zero TEID is not
+     recorded). *)
 
 (* a live session: association, local SEID, the TEIDs chosen for it *)
 Record sess := Sess { s_conn : nat; s_seid : N; s_teids : list N }.
@@ -200,7 +206,15 @@ Definition ev_step (retries : nat) (access : N) (draws : nat -> stream) (w : wor
        TEIDs of the session are released and the session is removed *)
     (World (filter (fun s => negb (is_sess k seid s)) (w_sess w)) (w_drawn w)
            (release (all_teids (filter (is_sess k seid) (w_sess w))) (w_gen w)), None)
+  | EvMod k seid ch teid =>
+    (World (map (fun s => if is_sess k seid s && ch && negb (teid =? 0)
+                          then Sess (s_conn s) (s_seid s) (s_teids s ++ [teid]) else s) (w_sess w))
+           (w_drawn w) (w_gen w), None)
   end.
+
+(* the shape of modification that makes a session claim a TEID it was never given *)
+Definition ev_claims (e : ev) : bool :=
+  match e with EvMod _ _ ch teid => ch && negb (teid =? 0) | _ => false end.
 
 Fixpoint ev_run (retries : nat) (access : N) (draws : nat -> stream) (w : world) (es : list ev)
   : world * list (option eres) :=
